@@ -118,6 +118,33 @@ CLAIMED['C14'] = dict(
    technique="Coq proof over Reals (invariants, per-step envelopes) + vm_compute correspondence + extremal-history exploration of the real code",
    ref="DESIGN.md section 3, C14")
 
+ALIAS_NOTE = COMMON_NOTE + ("Python objects are modelled as a heap of cells with references (numpy arrays inside proposals, state dicts and the values "
+              "stored for reset); in-place updates write through a reference, rebinding allocates. Which of the two an update is, is read off the "
+              "identity of the live arrays on every run. Contents are compared as bit patterns. ")
+CLAIMED['C16'] = dict(
+   text="Theorems by induction over arbitrary operation histories (in-place or rebinding adaptation updates on any sampler, state reads, "
+        "loads of any earlier state object into any sampler, resets) about the heap model of Chain.state/set_state: every state object handed "
+        "out keeps exactly the contents it had when read; operations on other samplers - also ones loaded from the very same state object - "
+        "never change a sampler's arrays; a load gives the sampler the state's contents. The semantics without copying is refuted in Coq for "
+        "in-place families (the defect repaired in /repo) and proved harmless for rebinding-only families. Correspondence: 2-3 real MH/PT "
+        "samplers of 20 adaptive family variants under random interleavings of run/state/set_state without serialisation; contents of every "
+        "sampler and every state object after every action vs the model; directly, every state object vs its contents when read and every "
+        "sampler vs an isolated twin.",
+   note=ALIAS_NOTE + "Transdimensional samplers (state layout varies with the active set) are not generated here.",
+   technique="Coq proof (ownership invariant on a heap model, induction over operation lists, refutation witnesses by vm_compute) + vm_compute correspondence",
+   ref="DESIGN.md section 3, C16")
+CLAIMED['C19'] = dict(
+   text="Theorems: for every history of adaptation steps, state reads/loads and earlier resets the values stored at construction are never "
+        "written, so every reset - first and later - installs exactly the constructed values, and touches no other chain or level; the window "
+        "restarts at max(nsteps,1); for every ladder size and every decision list of a sweep the levels with swap_index[t] != t, which "
+        "reset_after_swap resets, are exactly the levels next to an accepted exchange, and every other level keeps its occupant. The code as "
+        "found (reset installing the stored arrays themselves) is refuted in Coq. Correspondence on real samplers of 20 adaptive family "
+        "variants (random run/reset interleavings, resets before the first step and twice in a row), proposal-level comparison with a freshly "
+        "built proposal given the same clock (state, jump, logpdf) after each of 1-4 resets, and real PT runs with reset_after_swap=True.",
+   note=ALIAS_NOTE + "The eigenvector families' 'ind' (direction of the most recent jump) is transient and excluded from the fresh-proposal comparison.",
+   technique="Coq proof (ownership invariant on a heap model; loop-invariant characterisation of the sweep's index array) + vm_compute correspondence",
+   ref="DESIGN.md section 3, C19")
+
 PENDING_REASON = "not yet claimed: model/theorems for this property are still being built (see DESIGN.md section 3); nothing is asserted about it"
 
 def main():
